@@ -498,6 +498,18 @@ class Worker(threading.Thread):
         return val
 
 
+def _current(module: str, name: str):
+    """the value the code would read now, however the slot is implemented (ContextVar, thread-local
+    attribute or plain module variable): a change of mechanism must show as behaviour, not as a
+    harness error"""
+    import importlib
+
+    slot = getattr(importlib.import_module("nix_manipulator.expressions." + module), name)
+    if hasattr(slot, "get") and not isinstance(slot, (bytes, str, type(None), Path)):
+        return slot.get()
+    return slot
+
+
 def sched_correspondence(ctx: fw.Ctx, n_sched: int, n_steps: int, docs: list[str]):
     import nix_manipulator.parser as P
     import nix_manipulator.resolution as R
@@ -595,7 +607,7 @@ def _sched_runs(ctx, n_sched, n_steps, sample, serial, reqs, expect, descr, seen
                     v = rng.choice(["b", "p"])
 
                     def do_get(v=v):
-                        val = _SOURCE_BYTES.get() if v == "b" else _SOURCE_PATH.get()
+                        val = _current("trivia", "_SOURCE_BYTES") if v == "b" else _current("path", "_SOURCE_PATH")
                         try:
                             return None if val is None else int(val.decode() if v == "b" else str(val))
                         except (ValueError, AttributeError, UnicodeDecodeError):
